@@ -8,6 +8,8 @@ import time
 
 from . import findings
 from .common import SPEC, VERIF, seed
+
+OUT = os.environ.get("VERIF_OUT", VERIF)  # where evidence/ and replays/ are written (self-tests redirect it)
 from .tlc import TLCFailure, run_tlc
 
 
@@ -39,6 +41,10 @@ class Run:
     # ------------------------------------------------------------------ model checking
     def mc(self, module, cfg=None, workers=None, timeout=1800, expect_violation=None, coverage=False, **kw):
         """Run TLC on spec/mc/<module>.tla. A violated invariant is a model-level violation."""
+        if os.environ.get("VERIF_SKIP_MC") == "1":
+            # self-test mode only (evaluating code mutants): the bounded models do not depend on the code under test
+            self.notes.append(f"model checking of {module} skipped (VERIF_SKIP_MC=1)")
+            return None
         tla = os.path.join(SPEC, "mc", module + ".tla")
         cfgp = os.path.join(SPEC, "mc", (cfg or module) + ".cfg")
         w = workers or (os.cpu_count() or 4)
@@ -144,7 +150,7 @@ class Run:
         # vacuity guard: every clause of this property that the spec evaluated must have applied at least once
         vacuous = sorted(k for k, n in self.counters.items() if k.startswith(self.pid + ".") and n == 0)
         replay_paths = []
-        os.makedirs(os.path.join(VERIF, "replays"), exist_ok=True)
+        os.makedirs(os.path.join(OUT, "replays"), exist_ok=True)
         groups = {}
         for v in unexplained:
             groups.setdefault((v["clause"], v.get("sig", "")), []).append(v)
@@ -156,7 +162,7 @@ class Run:
             v = vs[0]
             blob = json.dumps({"p": self.pid, "c": clause, "i": v["item"]}, sort_keys=True, default=str)
             h = hashlib.sha1(blob.encode()).hexdigest()[:12]
-            path = os.path.join(VERIF, "replays", f"{self.pid}-{h}.json")
+            path = os.path.join(OUT, "replays", f"{self.pid}-{h}.json")
             with open(path, "w") as f:
                 json.dump(
                     {
@@ -211,8 +217,8 @@ class Run:
             "violations": len(unexplained),
         }
         if not self.is_replay:
-            os.makedirs(os.path.join(VERIF, "evidence"), exist_ok=True)
-            with open(os.path.join(VERIF, "evidence", f"{self.pid}.json"), "w") as f:
+            os.makedirs(os.path.join(OUT, "evidence"), exist_ok=True)
+            with open(os.path.join(OUT, "evidence", f"{self.pid}.json"), "w") as f:
                 json.dump(ev, f, indent=1, default=str)
         if self.machinery_errors:
             for m in self.machinery_errors[:5]:
